@@ -1926,6 +1926,9 @@ func (tc *typechecker) checkCompositeLiteral(node *ast.CompositeLiteral, typ ref
 
 	// Handle composite literal nodes with implicit type.
 	if node.Type == nil {
+		if typ == nil { // T{{}} with T a struct type, &{}
+			panic(tc.errorf(node, "missing type in composite literal"))
+		}
 		node.Type = ast.NewPlaceholder()
 		tc.compilation.typeInfos[node.Type] = &typeInfo{Properties: propertyIsType, Type: typ}
 	}
